@@ -10,7 +10,9 @@ LEVEL_TEXT = 'Lean theorems about the argument-interpreter model: an iff-charact
 LEVEL_NOTE = 'Tie-break arithmetic score - expert/100 is modelled exactly as 100*score - expert (expert levels 0..9 generated).'
 TECHNIQUE = 'Lean 4 theorems on the score/selection model and value transfer + differential correspondence + independent ranking oracle'
 RULE = ("masters from path sets over the component alphabet {a,b,ab,ba} (depth <= 3, so substring/suffix collisions abound), "
-        "expert levels on scopes/definitions, x home scopes x argument names that are full paths / suffixes / substrings / "
+        "expert levels on scopes/definitions, written as single nested blocks or (every 4th case) one parameter at a time with the path "
+        "cut at random into dotted names and nested blocks, in random order, so that scopes are reopened and the first block of a "
+        "scope lacks some of its children (nested home scopes preferred there), x home scopes x argument names that are full paths / suffixes / substrings / "
         "non-substrings x value texts with quotes, spaces, '=' and ';'; non-trivial = name matches at least two paths; "
         "distinct = (master, home, arg)")
 ASSUMPTIONS = ["expert levels below 100"]
@@ -62,6 +64,49 @@ def gen_master(rng, dup=False):
                 lines.append("%s}" % indent)
     emit(tree, "", [])
     return "\n".join(lines) + "\n", order
+
+
+def gen_master_spread(rng):
+    """returns (text, paths) — the same path sets, but every parameter is written on its own: the components of its path are
+    grouped at random into dotted names and nested blocks (`a.b.c = 0`, `a { b.c = 0 }`, `a.b { c = 0 }`, `a { b { c = 0 } }`),
+    the parameters in random order, so that a scope is opened once per parameter below it (reopened blocks / dotted names) and
+    the first occurrence of a scope in the master does not contain all of its children"""
+    n = rng.randint(2, 7)
+    paths = []
+    attempts = 0
+    while len(paths) < n and attempts < 200:
+        attempts += 1
+        p = [rng.choice(COMPS) for _ in range(rng.choice([1, 2, 3, 3, 3]))]
+        if any(q[:len(p)] == p or p[:len(q)] == q for q in paths):
+            continue
+        paths.append(p)
+    lines = []
+    for p in paths:
+        # cut the path into groups of components; every group but the last is a (dotted) scope header
+        groups, cur = [], [p[0]]
+        for c in p[1:]:
+            if rng.random() < 0.5:
+                cur.append(c)
+            else:
+                groups.append(cur)
+                cur = [c]
+        groups.append(cur)
+        indent = ""
+        for g in groups[:-1]:
+            lines.append("%s%s" % (indent, ".".join(g)))
+            ex = rng.choice([None, None, None, 0, 1, 2, 3])
+            if ex is not None:
+                lines.append("%s  .expert_level = %d" % (indent, ex))
+            lines.append("%s{" % indent)
+            indent += "  "
+        lines.append("%s%s = 0" % (indent, ".".join(groups[-1])))
+        ex = rng.choice([None, None, None, 0, 1, 2, 3])
+        if ex is not None:
+            lines.append("%s  .expert_level = %d" % (indent, ex))
+        for g in groups[:-1]:
+            indent = indent[:-2]
+            lines.append("%s}" % indent)
+    return "\n".join(lines) + "\n", [".".join(p) for p in paths]
 
 
 def rank(home, name, path):
@@ -117,7 +162,13 @@ def run(ctx):
             ctx.notes.append("stopped early on time budget")
             break
         d12 = i % 20 == 19
-        mtext, paths = gen_master(rng, dup=d12)
+        spread = i % 4 == 1
+        if spread:
+            # scopes opened more than once (reopened blocks, dotted names), nested home scopes preferred
+            mtext, paths = gen_master_spread(rng)
+            ctx.count("masters_with_reopened_scopes")
+        else:
+            mtext, paths = gen_master(rng, dup=d12)
         master = freephil.parse(input_string=mtext)
         if i % 50 == 7:
             # a master that declares no parameter: every name is unknown
@@ -126,6 +177,12 @@ def run(ctx):
             ctx.count("masters_without_parameters")
         tps = [l.path for l in master.all_definitions()]
         home = rng.choice([None, None] + sorted({p.rsplit(".", 1)[0] for p in tps if "." in p}) + ["a", "zz"])
+        if spread:
+            nested = sorted({p.rsplit(".", 1)[0] for p in tps if p.count(".") >= 2})
+            if nested and rng.random() < 0.6:
+                home = rng.choice(nested)
+            if home is not None and "." in home:
+                ctx.count("nested_home_on_reopened_scopes")
         k = rng.random() if tps else 1.0
         if k < 0.3:
             name = rng.choice(tps)
